@@ -188,7 +188,7 @@ def run_part(pid, part, tier, binp, bdir, replay=None, seed=1):
         if part.get("gomaxprocs"):
             env["GOMAXPROCS"] = str(part["gomaxprocs"])
         # the heap budget at which the engines stop with a cap stays well below the hard address-space limit (ulimit -v)
-        env["VERIF_MEM_MB"] = str(min(mem_budget_mb(shards), int(part.get("mem_gb", 12) * 1024 * 0.5)))
+        env["VERIF_MEM_MB"] = str(min(mem_budget_mb(shards), int(part.get("mem_gb", 12) * 1024 * 0.4)))
         if replay:
             env["VERIF_REPLAY"] = replay
         if part.get("instrument"):
